@@ -50,18 +50,19 @@ new.append(entry("C02",
     assumptions=COMMON_ASSUME,
     explanation="The `result` postcondition of every operation states each returned field as a function of the reply bytes R (offset and encoding from the protocol table) and the sentinels; `accept` states the domain conditions under which a reply may be turned into a result at all (boolean bytes 0/1, event type != 0xff, echoed card/profile). The per-type decoders are verified against contracts that make out-of-domain bytes an error or the zero value."))
 new.append(entry("C03",
-    functions=OPS + ["uhppote.(*uhppote).udpBroadcastTo$1", "uhppote.sendto$1"],
-    scope=[OPRE + r"ensures:accept$", OPRE + r"requires:", r"^uhppote\.\(\*uhppote\)\.udpBroadcastTo\$1#", r"^uhppote\.sendto\$1.*#ensures:(reply|norep|fail)$"],
+    functions=OPS + ["uhppote.(*uhppote).udpBroadcastTo$1", "uhppote.sendto$1", "uhppote.(*ut0311).BroadcastTo", "uhppote.(*ut0311).SendUDP", "uhppote.(*ut0311).SendTCP"],
+    scope=[OPRE + r"ensures:accept$", OPRE + r"requires:", r"^uhppote\.\(\*uhppote\)\.udpBroadcastTo\$1#", r"^uhppote\.sendto\$1.*#ensures:(reply|norep|fail)$", r"^uhppote\.\(\*ut0311\)\.\w+#(ensures:(accepted|noreply|reply|failed)|loop1\.|requires:)"],
     pinned_file="pins_uhppote.json", pinned_labels=["contract", "macro"],
     assumptions=COMMON_ASSUME,
     not_decided=["'keeps waiting for S until its deadline' is a statement about time; only its safety half (a rejected datagram is never returned) is decided"],
     explanation="`accept`: whenever an operation returns without error the single reply recorded in `recv` is 64 bytes, starts with 0x17 (or 0x19 with function 0x20), carries the operation's function code and the addressed serial number. The broadcast acceptance callback is verified to accept exactly (len 64, serial S)."))
 new.append(entry("C06",
-    functions=OPS + ["uhppote.sendto$1"],
-    scope=[OPRE + r"ensures:(route|once)$", OPRE + r"requires:", r"^uhppote\.sendto\$1"],
+    functions=OPS + ["uhppote.sendto$1", "uhppote.(*ut0311).BroadcastTo", "uhppote.(*ut0311).SendUDP", "uhppote.(*ut0311).SendTCP"],
+    scope=[OPRE + r"ensures:(route|once)$", OPRE + r"requires:", r"^uhppote\.sendto\$1", r"^uhppote\.\(\*ut0311\)\.\w+#(ensures:(one|bind|dial|sent|once)|loop1\.|requires:)"],
     pinned_file="pins_uhppote.json", pinned_labels=["contract", "macro"],
     assumptions=COMMON_ASSUME + ["net.UDPAddrFromAddrPort / TCPAddrFromAddrPort / net.IPv4bcast / IP.To4 models (engine/vc/libnet.go)"],
-    not_decided=["IP-level fan-out of a broadcast ('no other endpoint receives anything') is outside function contracts; stated at the level of driver calls"],
+    not_decided=["IP-level fan-out of a broadcast ('no other endpoint receives anything') is outside function contracts; stated at the level of driver and socket calls",
+                 "ut0311.Broadcast (discovery): a goroutine reads the replies - outside the sequential subset"],
     explanation="`route`: the one request of an operation goes to the driver method and endpoint given by the routing macro `routed` (configured usable address: SendUDP, or SendTCP when Protocol == \"tcp\"; otherwise BroadcastTo the configured broadcast address, 255.255.255.255:60000 when none is configured)."))
 new.append(entry("C07",
     functions=OPS + ["uhppote.isWiegand26", "uhppote.isCardNumberValid"],
@@ -208,6 +209,19 @@ new.append(entry("C14", level="other",
                  "DateTime JSON (zone abbreviation handling inside time.Parse), Version (fmt.Sscanf), MacAddress (net.ParseMAC), TaskType by name and CardFormat (case-folding regular-expression rewriting), PIN (variable-width decimal text), SystemTime text form",
                  "JSON forms of the address types (the text round trip is decided: lemma<Role>AddrText)"],
     explanation="Decided for the leaf types whose parser is repository code over a string: HH:mm (String/HHmmFromString and JSON: accepted exactly for dd:dd with hours <= 24, minutes <= 59, not 24:mm with mm != 0; everything else of that JSON-string form rejected; decode(encode(v)) == v), door control state JSON (exactly the three names; anything else rejected), Date JSON and text (blank <-> zero value, impossible dates rejected, civil value kept whenever the day exists in the zone), and the four address types' text forms. Level 'other': the property lists more types than contracts can reach."))
+
+
+new.append(entry("C09", level="other",
+    functions=["uhppote.(*ut0311).BroadcastTo", "uhppote.(*ut0311).SendUDP", "uhppote.(*ut0311).SendTCP"],
+    scope=[r"^uhppote\.\(\*ut0311\)\."],
+    pinned_file="pins_uhppote.json", pinned_labels=["contract", "macro"],
+    assumptions=["assumed contracts of package net and sync.Mutex as events on a ghost socket typestate (spec/net.spec, spec/lib/net.contracts, spec/lib/sync.contracts): what the kernel does on a deadline, a dial or a close is outside",
+                 "codec.Dump (debug hex dump) is a trusted contract: returns a string, does not panic",
+                 "the acceptance callback handed to BroadcastTo is a pure predicate of the datagram"],
+    not_decided=["the wall-clock bound itself ('returns within the configured timeout plus scheduling slack'): a statement about time, not about calls",
+                 "goroutine termination and 'no more goroutines than before' (ut0311.Broadcast, ut0311.Listen): goroutines are outside the sequential subset",
+                 "ut0311.Broadcast: write deadline, no read deadline, time.Sleep(timeout) - not under contract"],
+    explanation="Decided clauses, as socket/lock typestate of the three sequential driver methods BroadcastTo, SendUDP, SendTCP: exactly one socket is opened per call (none on an early failure) and it is closed on every return path (`closed`); every blocking write and read happens while a deadline is set on the socket, and the dial is given a deadline (`guarded`, `dial`); the process-wide send lock is taken iff the bind port is non-zero and released on every path (`lock`); the only exits of the receive loop are an accepted datagram or a read error (`accepted`, loop invariant), i.e. the call never gives up early on its own. Level 'other': the timing and goroutine clauses of the property cannot be expressed as function contracts."))
 
 ids = {e["id"] for e in new}
 out = [p for p in props if p["id"] not in ids] + new
